@@ -66,6 +66,10 @@ for _src, _dsts in CAST_PAIRS.items():
 op("to_int", "xsimd::to_int(a)", "B", FLOAT_TYPES, "R:int")
 op("to_float", "xsimd::to_float(a)", "B", ["i32", "i64"], "R:float")
 op("nearbyint_as_int", "xsimd::nearbyint_as_int(a)", "B", FLOAT_TYPES, "R:int")
+# C16: complex batches (z, w complex batches of element type T)
+for _n, _e, _r in (("cadd", "z + w", "C"), ("csub", "z - w", "C"), ("cneg", "-z", "C"), ("cconj", "xsimd::conj(z)", "C"), ("creal", "xsimd::real(z)", "B"),
+                   ("cimag", "xsimd::imag(z)", "B"), ("ceq", "z == w", "M"), ("cneq", "z != w", "M")):
+    op(_n, _e, "ZZ" if "w" in _e else "Z", FLOAT_TYPES, _r)
 # C09: reductions
 for _n in ("reduce_add", "reduce_max", "reduce_min"):
     op(_n, "xsimd::%s(a)" % _n, "B", ALL_TYPES, "T")
@@ -102,7 +106,8 @@ def entry_text(opn, tid, aid):
     T, A = TYPES[tid][0], ARCHS[aid][0]
     B = "xsimd::batch<%s, %s>" % (T, A)
     M = "xsimd::batch_bool<%s, %s>" % (T, A)
-    names = {"B": iter(["a", "b", "c"]), "M": iter(["m", "m2"]), "I": iter(["n"]), "S": iter(["s"]), "p": iter(["p"]), "q": iter(["q"])}
+    names = {"B": iter(["a", "b", "c"]), "M": iter(["m", "m2"]), "I": iter(["n"]), "S": iter(["s"]), "p": iter(["p"]), "q": iter(["q"]), "Z": iter(["z", "w"])}
+    Cb = "xsimd::batch<std::complex<%s>, %s>" % (T, A)
     params, prologue = [], []
     for k in kinds:
         nm = next(names[k])
@@ -116,6 +121,9 @@ def entry_text(opn, tid, aid):
             params.append("int %s" % nm)
         elif k == "S":
             params.append("%s %s" % (T, nm))
+        elif k == "Z":
+            params.append("%s const* p_%s" % (Cb, nm))
+            prologue.append("%s const& %s = *p_%s;" % (Cb, nm, nm))
         elif k == "p":
             params.append("%s const* %s" % (T, nm))
         elif k == "q":
@@ -128,7 +136,7 @@ def entry_text(opn, tid, aid):
             d = {"i32": "f32", "i64": "f64"}[tid]
         R = "xsimd::batch<%s, %s>" % (TYPES[d][0], A)
     else:
-        R = {"B": B, "M": M, "X": "uint64_t", "T": T}[ret]
+        R = {"B": B, "M": M, "X": "uint64_t", "T": T, "C": Cb}[ret]
     return 'extern "C" void %s(%s* r%s) { typedef %s B; typedef %s T; typedef %s A; %s *r = %s; }\n' % (
         entry_name(opn, tid, aid), R, "".join(", " + p for p in params), B, T, A, " ".join(prologue), expr)
 
@@ -137,7 +145,7 @@ def tu_text(cases, emulated=False):
     head = ""
     if emulated:
         head += "#define XSIMD_WITH_EMULATED 1\n"
-    head += "#include <xsimd/xsimd.hpp>\n#include <cstdint>\n"
+    head += "#include <xsimd/xsimd.hpp>\n#include <cstdint>\n#include <complex>\n"
     return head + "".join(entry_text(*c) for c in cases)
 
 
